@@ -65,7 +65,18 @@ MANIFEST = {
                   "tracks (also all) without a sample, is written and every track reads back what was added "
                   "(C11_mux_segment_total_opt, C11_mux_segment_empty), the multiplexed writer over all segments with optimisation "
                   "and empty intervals (C11_segmenter_mux_total_opt); an empty single-track fragment cannot be encoded with "
-                  "optimisation (C11_write_segment_empty_opt_fails). Only explored by correspondence/search, not proved: the byte-level box codecs of moof/mdat/styp and "
+                  "optimisation (C11_write_segment_empty_opt_fails). The sync-start clause at the DECODED level (round 4): for the "
+                  "reference track (first video track; all tracks consistent, it points into the file and lists sample 1 in stss, "
+                  "segment starts found, guard nonzero_dur_syncs, planned segments below 2 GiB) the in-memory writer and the "
+                  "-lazy writer (one chunk-offset box) DO write its segments, they read back as the expansion and EVERY written "
+                  "file's first sample has sample_is_non_sync_sample = 0 in the flags a reader gets, with or without sdtp, trun "
+                  "optimisation on or off (C11_segmenter_segments_start_sync, C11_segmenter_lazy_segments_start_sync; per-segment "
+                  "form of the write/read-back pipeline + C11_video_starts_sync + C09Spec.S_flags); the same under ONE boolean "
+                  "hypothesis C11Spec.ref_sync_hyps (C11_segmenter_segments_start_sync_applies, "
+                  "C11_segmenter_lazy_segments_start_sync_applies), which the W correspondence evaluates on every built-tool run "
+                  "(evidence notes.correspondence.sync_theorem_applies: on how many runs the theorems applied; there the files the "
+                  "tool wrote are checked against the conclusion). For the multiplexed writer the decoded-level sync clause is "
+                  "evaluated the same way but not proved. Only explored by correspondence/search, not proved: the byte-level box codecs of moof/mdat/styp and "
                   "DecodeFile's regrouping of a box stream into segments and fragments (C05 proves the tfhd/trun codecs and is "
                   "adding the segment level); a track carrying both stco and co64 in the -lazy writer; of the init segments everything but (id, handler, "
                   "timescale, sample entries as opaque bytes, trex): ftyp, mvhd, tkhd fields, language, edit lists, mehd (combine-segs "
@@ -294,7 +305,10 @@ def run(ctx):
                        "model_says": mism[0][:3000]},
                       "model/implementation disagree on %d cases" % len(mism), no_input=True)
     ctx.proof_violation_if_broken(pr, "c11 search: %d evaluations, no failing input" % ctx.notes.get("search_evaluations", 0))
-    ctx.cov["rule"] = ("corr C: combine-segs at the decoded level through the tagged driver (k = 1-4 files, ids distinct / duplicate / "
+    ctx.cov["rule"] = ("corr W also evaluates the extracted C11Spec.ref_sync_hyps (hypothesis of the two _applies theorems) on "
+                       "the tables DecodeFile saw and, where true, checks that every file the built tool wrote for the reference "
+                       "track starts with a sample whose flags have bit 16 clear (count per mode in notes.correspondence."
+                       "sync_theorem_applies); corr C: combine-segs at the decoded level through the tagged driver (k = 1-4 files, ids distinct / duplicate / "
                        "too few / too many; inputs with 1-6 truns, per-sample fields vs tfhd defaults vs first-sample-flags vs values "
                        "LIFTED TO THE TREX (outside the guard), 4 base-data-offset modes, styp or not, no sample; negative: two "
                        "fragments, two segments, a second traf) and through the built tool (k = 2): the model gets DecodeFile's "
